@@ -1,0 +1,20 @@
+//go:build verif
+
+package tq
+
+import "time"
+
+// VerifReadyDelay exposes retryCounter.ReadyTime to the verification harness:
+// the delay before retry number "count" of an object under the given
+// lfs.transfer.maxretrydelay (seconds). Zero time is reported as -1.
+func VerifReadyDelay(count, maxRetryDelay int) time.Duration {
+	rc := newRetryCounter()
+	rc.MaxRetryDelay = maxRetryDelay
+	rc.count["x"] = count
+	before := time.Now()
+	rt := rc.ReadyTime("x")
+	if rt.IsZero() {
+		return -1
+	}
+	return rt.Sub(before)
+}
